@@ -503,6 +503,9 @@ func (tree *MutableTree) LoadVersion(targetVersion int64) (int64, error) {
 
 	tree.ImmutableTree = iTree
 	tree.lastSaved = iTree.clone()
+	// uncommitted changes are discarded together with their fast node overlay
+	tree.unsavedFastNodeAdditions = &sync.Map{}
+	tree.unsavedFastNodeRemovals = &sync.Map{}
 
 	if !tree.skipFastStorageUpgrade {
 		// Attempt to upgrade
